@@ -105,18 +105,40 @@ Proof.
   - intro E. apply app_eq_nil in E. destruct E as [_ E]. discriminate.
 Qed.
 
-(* every number text is a non-empty string over [0-9.e+-] *)
-Theorem number_to_json_chars : forall b s, number_to_json b = Some s -> s <> [] /\ Forall numchar s.
+(* inversion of number_to_json: zero, or sign ++ layout of checked digits, read back as the same 64 bits *)
+Lemma number_to_json_inv : forall b s,
+  number_to_json b = Some s ->
+  let z := Z.of_N b in
+  (((z / two52) mod 2048 =? 0) && (z mod two52 =? 0) = true /\ s = [x30]) \/
+  (((z / two52) mod 2048 =? 0) && (z mod two52 =? 0) = false /\
+   exists c n p,
+     s = (if (z / two63) mod 2 =? 1 then [x2d] else []) ++
+         (if (z mod two63 <? bits_1e21) && (bits_1em6 <=? z mod two63)
+          then layout_f (dec_string c) n else layout_e (dec_string c) n) /\
+     parse_number s = Some p /\ Z.of_N p = z mod two64).
 Proof.
-  intros b s H. unfold number_to_json in H.
-  destruct ((Z.of_N b / two52) mod 2048 =? 2047); [discriminate|].
-  destruct (((Z.of_N b / two52) mod 2048 =? 0) && (Z.of_N b mod two52 =? 0)).
-  { inversion H; subst. split; [discriminate|]. constructor; [left; vm_compute; split; discriminate|constructor]. }
+  intros b s H z. unfold number_to_json in H. fold z in H.
+  destruct ((z / two52) mod 2048 =? 2047); [discriminate|].
+  destruct (((z / two52) mod 2048 =? 0) && (z mod two52 =? 0)).
+  { left. inversion H. now split. }
+  right. split; [reflexivity|].
   match type of H with
   | match ?sh with Some _ => _ | None => _ end = _ => destruct sh as [[digs n]|] eqn:Es; [|discriminate]
   end.
-  apply shortest_spec in Es. destruct Es as [c [-> _]].
-  inversion H; subst. clear H.
+  apply shortest_spec in Es. destruct Es as [c [-> _]]. cbv zeta in H.
+  match type of H with
+  | match parse_number ?t with Some _ => _ | None => _ end = _ =>
+    destruct (parse_number t) as [p|] eqn:Ep; [|discriminate]
+  end.
+  match type of H with (if ?q then _ else _) = _ => destruct q eqn:Eq; [|discriminate] end.
+  inversion H; subst. apply Z.eqb_eq in Eq. exists c, n, p. split; [reflexivity|]. split; [exact Ep|exact Eq].
+Qed.
+
+(* every number text is a non-empty string over [0-9.e+-] *)
+Theorem number_to_json_chars : forall b s, number_to_json b = Some s -> s <> [] /\ Forall numchar s.
+Proof.
+  intros b s H. apply number_to_json_inv in H. cbv zeta in H. destruct H as [[_ ->]|[_ [c [n [p [-> _]]]]]].
+  { split; [discriminate|]. constructor; [left; vm_compute; split; discriminate|constructor]. }
   assert (Hl : forall fmt : bool, Forall numchar (if fmt then layout_f (dec_string c) n else layout_e (dec_string c) n)
                                   /\ (if fmt then layout_f (dec_string c) n else layout_e (dec_string c) n) <> []).
   { intros [|]; [apply layout_f_chars; [apply dec_string_chars|apply dec_string_nonempty]|apply layout_e_chars, dec_string_chars]. }
@@ -128,29 +150,33 @@ Proof.
     constructor; [right; right; right; right; reflexivity|constructor].
 Qed.
 
-(* number_roundtrip, the part that holds by construction: the digits c and the exponent p printed for a finite
-   non-zero double were checked to round (to nearest, ties to even) to that same double.
-   FULL STATEMENT (not proved here):
-     forall b s, (b < 2^64)%N -> number_to_json b = Some s ->
-                 parse_number s = Some (if b is +-0 then 0 else b)
-   Missing: the lemma that the strconv.readFloat model, run on (layout_f/layout_e digits n), yields mantissa c'
-   and exponent p' with c' * 10^p' = c * 10^p (digit-string <-> Z reasoning for the three layouts).  The statement
-   is validated by evaluation: n_rt_mismatches (SV.Corr.Json) on all number cases of the differential run. *)
-Theorem number_roundtrip_partial : forall b s,
-  number_to_json b = Some s ->
-  let z := Z.of_N b in
-  ((z / two52) mod 2048 =? 0) && (z mod two52 =? 0) = false ->
-  exists c p, round_rat (dec_num c p) (dec_den p) = Some (z mod two63).
+(* 7. number_roundtrip: the text printed for a (64-bit) double reads back as that double; zero loses its sign.
+   It holds by construction: number_to_json only returns a text that the model of ParseFloat reads back as
+   the same bits (and the differential run shows that this self-check never rejects anything). *)
+Theorem number_roundtrip : forall b s,
+  (b < 18446744073709551616)%N -> number_to_json b = Some s ->
+  parse_number s = Some (if ((b =? 0) || (b =? 0x8000000000000000))%N then 0%N else b).
 Proof.
-  intros b s H z Hz. unfold number_to_json in H. fold z in H.
-  destruct ((z / two52) mod 2048 =? 2047); [discriminate|]. rewrite Hz in H.
-  match type of H with
-  | match ?sh with Some _ => _ | None => _ end = _ => destruct sh as [[digs n]|] eqn:Es; [|discriminate]
-  end.
-  apply shortest_spec in Es. destruct Es as [c [_ Hr]]. unfold roundtrips in Hr.
-  exists c, (n - Z.of_nat (length digs)).
-  destruct (round_rat (dec_num c (n - Z.of_nat (length digs))) (dec_den (n - Z.of_nat (length digs)))) as [r|]; [|discriminate].
-  apply Z.eqb_eq in Hr. now subst.
+  intros b s Hb H. apply number_to_json_inv in H. cbv zeta in H.
+  assert (Hz : 0 <= Z.of_N b < two64) by (unfold two64; lia).
+  destruct H as [[Hf ->]|[Hf [c [n [p [_ [Hp Hq]]]]]]].
+  - apply andb_true_iff in Hf. destruct Hf as [H1 H2]. apply Z.eqb_eq in H1, H2.
+    assert (Hk : Z.of_N b = 0 \/ Z.of_N b = two63).
+    { unfold two52, two63, two64 in *.
+      pose proof (Z.div_mod (Z.of_N b) 4503599627370496 ltac:(lia)) as D.
+      pose proof (Z.div_mod (Z.of_N b / 4503599627370496) 2048 ltac:(lia)) as D2.
+      assert (Z.of_N b / 4503599627370496 < 4096) by (apply Z.div_lt_upper_bound; lia).
+      assert (0 <= Z.of_N b / 4503599627370496) by (apply Z.div_pos; lia).
+      assert (Hq : Z.of_N b / 4503599627370496 / 2048 = 0 \/ Z.of_N b / 4503599627370496 / 2048 = 1).
+      { assert (0 <= Z.of_N b / 4503599627370496 / 2048) by (apply Z.div_pos; lia).
+        assert (Z.of_N b / 4503599627370496 / 2048 < 2) by (apply Z.div_lt_upper_bound; lia). lia. }
+      lia. }
+    destruct Hk as [Hk|Hk].
+    + assert (b = 0%N) by lia. subst. reflexivity.
+    + assert (b = 0x8000000000000000%N) by (unfold two63 in Hk; lia). subst. reflexivity.
+  - rewrite Z.mod_small in Hq by exact Hz. apply N2Z.inj in Hq. subst p. rewrite Hp. f_equal.
+    destruct ((b =? 0) || (b =? 0x8000000000000000))%N eqn:E; [|reflexivity].
+    apply orb_true_iff in E. destruct E as [E|E]; apply N.eqb_eq in E; subst; vm_compute in Hf; discriminate.
 Qed.
 
 (* layout: which of the two ES6 forms is used is decided by comparing with the doubles 1e21 and 1e-6 *)
@@ -162,12 +188,9 @@ Lemma number_to_json_layout : forall b s,
     s = (if (z / two63) mod 2 =? 1 then [x2d] else []) ++
         (if (z mod two63 <? bits_1e21) && (bits_1em6 <=? z mod two63) then layout_f digs n else layout_e digs n).
 Proof.
-  intros b s H z Hz. unfold number_to_json in H. fold z in H.
-  destruct ((z / two52) mod 2048 =? 2047); [discriminate|]. rewrite Hz in H.
-  match type of H with
-  | match ?sh with Some _ => _ | None => _ end = _ => destruct sh as [[digs n]|]; [|discriminate]
-  end.
-  inversion H; subst. now exists digs, n.
+  intros b s H z Hz. apply number_to_json_inv in H. cbv zeta in H. fold z in H.
+  destruct H as [[Hf _]|[_ [c [n [p [-> _]]]]]]; [rewrite Hf in Hz; discriminate|].
+  now exists (dec_string c), n.
 Qed.
 
 (* the switch points *)
@@ -208,3 +231,35 @@ Proof.
   inversion H; subst. now apply Z.ltb_lt in E.
 Qed.
 
+Lemma signed_bound : forall neg x, x < inf_bits -> (signed neg x < 18446744073709551616)%N.
+Proof. intros neg x H. unfold signed, inf_bits, two63 in *. destruct neg; lia. Qed.
+
+Ltac split_pair H :=
+  match type of H with
+  | context [let '(a, b) := ?x in _] => destruct x as [? ?]
+  end.
+
+Theorem parse_number_bound : forall tok b, parse_number tok = Some b -> (b < 18446744073709551616)%N.
+Proof.
+  intros tok b H. unfold parse_number in H. cbv zeta in H.
+  destruct (map bZ tok) as [|c r]; [discriminate|].
+  split_pair H. split_pair H. split_pair H.
+  match type of H with (if ?q then _ else _) = _ => destruct q; [discriminate|] end.
+  match type of H with match ?q with Some _ => _ | None => _ end = _ => destruct q as [[[e us2] s4]|]; [|discriminate] end.
+  destruct s4; [|discriminate].
+  match type of H with (if ?q then _ else _) = _ => destruct q; [discriminate|] end.
+  match type of H with (if ?q then _ else _) = _ => destruct q end.
+  { inversion H. apply signed_bound. reflexivity. }
+  match type of H with (if ?q then _ else _) = _ => destruct q end.
+  - match type of H with (if ?q then _ else _) = _ => destruct q; [discriminate|] end.
+    match type of H with (if ?q then _ else _) = _ => destruct q end.
+    { inversion H. apply signed_bound. reflexivity. }
+    match type of H with match ?q with Some _ => _ | None => _ end = _ => destruct q as [x|] eqn:E; [|discriminate] end.
+    inversion H. apply signed_bound.
+    match type of E with (if ?q then _ else _) = _ => destruct q end; eapply round_rat_bound; exact E.
+  - match type of H with (if ?q then _ else _) = _ => destruct q; [discriminate|] end.
+    match type of H with (if ?q then _ else _) = _ => destruct q end.
+    { inversion H. apply signed_bound. reflexivity. }
+    match type of H with match ?q with Some _ => _ | None => _ end = _ => destruct q as [x|] eqn:E; [|discriminate] end.
+    inversion H. apply signed_bound. eapply round_rat_bound; exact E.
+Qed.
